@@ -11,6 +11,7 @@ import (
 // Key is {client_addr}_{client_port}_{dest_addr}_{dest_port}_{incremental_counter}_{proto_ident}
 type requestResponseMatcher struct {
 	openMessagesMap *sync.Map
+	registerLock    sync.Mutex
 }
 
 func createResponseRequestMatcher() api.RequestResponseMatcher {
@@ -35,6 +36,8 @@ func (matcher *requestResponseMatcher) registerRequest(ident string, request *ht
 		},
 	}
 
+	matcher.registerLock.Lock()
+	defer matcher.registerLock.Unlock()
 	if response, found := matcher.openMessagesMap.LoadAndDelete(ident); found {
 		// Type assertion always succeeds because all of the map's values are of api.GenericMessage type
 		responseHTTPMessage := response.(*api.GenericMessage)
@@ -59,6 +62,8 @@ func (matcher *requestResponseMatcher) registerResponse(ident string, response *
 		},
 	}
 
+	matcher.registerLock.Lock()
+	defer matcher.registerLock.Unlock()
 	if request, found := matcher.openMessagesMap.LoadAndDelete(ident); found {
 		// Type assertion always succeeds because all of the map's values are of api.GenericMessage type
 		requestHTTPMessage := request.(*api.GenericMessage)
